@@ -540,7 +540,7 @@ func VerifC16_SyntaxError() {
 // the parser has reported a syntax error, so the transform must fail.
 func VerifC08_ListenerRecovery() {
 	d := genDoc()
-	d.omit = []string{"module-name", "schema-version", "type-name", "relation-name", "relation-def", "condition-name", "param-type"}[zzverif.Choose("missing", 7)]
+	d.omit = []string{"module-name", "schema-version", "type-name", "relation-name", "relation-def", "condition-name", "param-type", "param-colon-type"}[zzverif.Choose("missing", 8)]
 	if d.omit == "module-name" {
 		d.module = "m"
 	}
